@@ -104,6 +104,7 @@ type Sim struct {
 	Failures  []string
 	trace     []string
 	startTime time.Time
+	simElapsed time.Duration
 
 	nodes []*Node
 
@@ -142,14 +143,10 @@ func RunBubble(t *testing.T, cfg Config, root func(s *Sim)) (s *Sim) {
 	if cfg.IdleLimit == 0 {
 		cfg.IdleLimit = 6 * time.Hour
 	}
-	s = &Sim{cfg: cfg, poke: make(chan struct{}, 1), Probes: map[string]int{}}
-	s.rng = NewSplitMix(cfg.Seed ^ 0x5ced5ced5ced5ced)
-	if cfg.Schedule != nil {
-		s.schedIn = expandSchedule(cfg.Schedule)
-		if s.schedIn == nil {
-			s.schedIn = []int{}
-		}
-	}
+	// sync.Pool contents (and with them buffer capacities and code paths) must not depend on when
+	// the garbage collector happens to run: no GC during a run.
+	oldGC := debug.SetGCPercent(-1)
+	defer debug.SetGCPercent(oldGC)
 	defer func() {
 		cur = nil
 		if r := recover(); r != nil {
@@ -163,12 +160,22 @@ func RunBubble(t *testing.T, cfg Config, root func(s *Sim)) (s *Sim) {
 		}
 	}()
 	synctest.Test(t, func(t *testing.T) {
+		// everything the scheduler blocks on must be created inside the bubble
+		s = &Sim{cfg: cfg, poke: make(chan struct{}, 1), Probes: map[string]int{}}
+		s.rng = NewSplitMix(cfg.Seed ^ 0x5ced5ced5ced5ced)
+		if cfg.Schedule != nil {
+			s.schedIn = expandSchedule(cfg.Schedule)
+			if s.schedIn == nil {
+				s.schedIn = []int{}
+			}
+		}
 		cur = s
 		s.startTime = time.Now()
 		s.root = s.newTask(nil, nil, 0)
 		s.root.ID = "0"
 		go s.taskMain(s.root, func() { root(s) })
 		s.loop()
+		s.simElapsed = time.Since(s.startTime)
 		s.shutdown()
 	})
 	return s
@@ -361,6 +368,9 @@ func (s *Sim) Switches() int          { return s.switches }
 func (s *Sim) InterleavingHash() uint64 { return s.hash }
 func (s *Sim) Trace() []string        { return s.trace }
 func (s *Sim) SimElapsed() time.Duration {
+	if s.simElapsed != 0 {
+		return s.simElapsed
+	}
 	return time.Since(s.startTime)
 }
 
@@ -502,6 +512,9 @@ func (s *Sim) yield(site uint32, p float64) {
 	}
 	s.mu.Lock()
 	v := s.drawLocked(p)
+	if s.cfg.TraceSched {
+		s.trace = append(s.trace, fmt.Sprintf("  draw %s site=%d v=%d", t.ID, site, v))
+	}
 	if v == 0 {
 		s.mu.Unlock()
 		return
